@@ -196,6 +196,7 @@ package compile
 //@ func (*Compiler).makeString
 //@   assumed
 //@   modifies *
+//@   ensures result != nil
 
 // ---------------------------------------------------------------------------
 // Length restrictions (C13): the length set of a derived string type is a subset of its base's length set - every
@@ -236,3 +237,55 @@ package compile
 //@   loop 0 invariant forall(k, 0, rb_len(rangeBdrySlice), cov(base_rb, rb_start(rangeBdrySlice, k), rb_end(rangeBdrySlice, k), rb_len(base_rb)))
 //@   loop 0 invariant implies(is(base_rb, schema.DrbSlice), forall(k, 0, rb_len(rangeBdrySlice), !notnum(rb_start(rangeBdrySlice, k)) && !notnum(rb_end(rangeBdrySlice, k))))
 //@   loop 1 invariant 0 <= index && index <= rb_len(base_rb) && implies(index >= 1, !rb_lt(base_rb, start, rangeMin) && rangeMax == rb_end(base_rb, index-1) && cov(base_rb, rangeMin, rangeMax, index) && implies(is(base_rb, schema.DrbSlice), rangeMin == rb_start(base_rb, index-1)))
+
+// ---------------------------------------------------------------------------
+// Defaults (C13): a type that leaves refineType / validateDefault has no default, or a default that the type itself
+// accepts - whichever level of the typedef chain the default or the restrictions came from.
+//@ define defaultOK(t) = implies(type_hasdefault(t), type_accepts(t, type_default(t)))
+//@ func (*Compiler).validateDefault
+//@   requires c != nil && t != nil && node != nil
+//@   ensures defaultOK(t)
+//@ func (*Compiler).refineType
+//@   requires c != nil && typ != nil && n != nil
+//@   modifies *
+//@   ensures result != nil && defaultOK(result)
+//@ func (*Compiler).makeBoolean
+//@   assumed
+//@   modifies *
+//@   ensures result != nil
+//@ func (*Compiler).makeDecimal64
+//@   assumed
+//@   modifies *
+//@   ensures result != nil
+//@ func (*Compiler).makeEmpty
+//@   assumed
+//@   modifies *
+//@   ensures result != nil
+//@ func (*Compiler).makeEnumeration
+//@   assumed
+//@   modifies *
+//@   ensures result != nil
+//@ func (*Compiler).makeInstanceId
+//@   assumed
+//@   modifies *
+//@   ensures result != nil
+//@ func (*Compiler).makeInteger
+//@   assumed
+//@   modifies *
+//@   ensures result != nil
+//@ func (*Compiler).makeUinteger
+//@   assumed
+//@   modifies *
+//@   ensures result != nil
+//@ func (*Compiler).makeUnion
+//@   assumed
+//@   modifies *
+//@   ensures result != nil
+//@ func (*Compiler).makeLeafref
+//@   assumed
+//@   modifies *
+//@   ensures result != nil
+//@ func (*Compiler).makeIdentityRef
+//@   assumed
+//@   modifies *
+//@   ensures result != nil
